@@ -233,7 +233,12 @@ func (p *cparser) iff() CExpr {
 	l := p.impl()
 	for p.isOp("<==>") {
 		p.next()
-		r := p.impl()
+		var r CExpr
+		if t := p.peek(); t.k == "id" && (t.v == "forall" || t.v == "exists") {
+			r = p.top()
+		} else {
+			r = p.impl()
+		}
 		l = &CBin{"<==>", l, r}
 	}
 	return l
